@@ -88,12 +88,12 @@ let split_ws (s : string) : string list =
   List.filter (fun x -> x <> "") (String.split_on_char ' ' s)
 
 (* run [f] on every line of stdin, printing one result line per input line *)
-(* Per-operation time limit for the extracted model (seconds, VERIF_OP_LIMIT, default 10): the list-based model needs
+(* Per-operation time limit for the extracted model (seconds, environment variable VERIF_OP_LIMIT; unset or 0 = no limit; C01/C02/C11 set 10): the list-based model needs
    time proportional to decoded element counts, so a hostile count over zero-size elements (e.g. 3*10^9 x `true`) would
    otherwise run for hours.  Such an operation answers "crash model-timeout" and is not compared. *)
 exception Model_timeout
-let op_limit = (try float_of_string (Sys.getenv "VERIF_OP_LIMIT") with _ -> 10.0)
-let arm () = ignore (Unix.setitimer Unix.ITIMER_REAL { Unix.it_interval = 0.0; Unix.it_value = op_limit })
+let op_limit = (try float_of_string (Sys.getenv "VERIF_OP_LIMIT") with _ -> 0.0)
+let arm () = if op_limit > 0.0 then ignore (Unix.setitimer Unix.ITIMER_REAL { Unix.it_interval = 0.0; Unix.it_value = op_limit })
 let disarm () = ignore (Unix.setitimer Unix.ITIMER_REAL { Unix.it_interval = 0.0; Unix.it_value = 0.0 })
 
 let each_line (f : string list -> string) : unit =
